@@ -1,6 +1,6 @@
 #!/usr/bin/env python3
 """Developer tool: files one confirmed seeded defect under /verif/seeded/<id>/ (patch.diff, demo.py, meta.json).
-usage: keepmutant.py <agent mutant dir> <id> <evalmutant result json> <testmutant result txt>"""
+usage: keepmutant.py <agent mutant dir> <id> <evalmutant result json> <testmutant result txt> [first-evaluation note]"""
 import json
 import os
 import shutil
@@ -36,5 +36,7 @@ out = {
     "checks": {k: {"exit": v["exit"], "verdict": "caught" if v["exit"] == 1 else ("missed" if v["exit"] == 0 else "inconclusive"),
                    "mechanisms": v["mechanisms"]} for k, v in ev.get("checks", {}).items()},
 }
+if len(sys.argv) > 5:
+    out["first_evaluation"] = sys.argv[5]
 json.dump(out, open(os.path.join(dst, "meta.json"), "w"), indent=1)
 print(mid, {k: v["verdict"] for k, v in out["checks"].items()}, "tests:", stable_ok)
